@@ -111,6 +111,14 @@ def apply_mutation(t, op):
         t["name", slice(op[1], op[2])] = op[3]
     elif k == "celllist":
         t["name", list(op[1])] = op[2]
+    elif k == "iadd":
+        # augmented whole-column assignment: Python updates the array in place and then assigns the SAME object back
+        if op[2] == "attr":
+            t.name += op[1]
+        else:
+            t["name"] += op[1]
+    elif k == "imul":
+        t["name"] *= op[1]
     elif k == "othercell":
         t["y", op[1]] = 0.0
     elif k == "newcol":
@@ -131,7 +139,7 @@ def apply_mutation(t, op):
         raise ValueError(op)
 
 
-INDEX_MUTATIONS = ("setcol", "setattr", "cellpos", "cellname", "celltuple", "cellslice", "celllist", "append")
+INDEX_MUTATIONS = ("setcol", "setattr", "cellpos", "cellname", "celltuple", "cellslice", "celllist", "append", "iadd", "imul")
 
 
 def all_lookups(names, alphabet):
@@ -241,7 +249,7 @@ def gen_sequence(rng):
                 names.append(rng.choice(alphabet))
                 ops.append(["append", names[-1]])
                 continue
-            nm = rng.choice(alphabet + ["zz"])
+            nm = rng.choice(alphabet + ["zz"] + sorted(set(names)))
             cnt = rng.choice([None, 0, 1, -1, 2, -2, 3, -4])
             off = rng.choice([0, 0, 0, 1, -1, 2])
             ops.append(["look", rng.choice(FORMS), nm, cnt, off])
@@ -249,7 +257,7 @@ def gen_sequence(rng):
             ops.append(["labels"])
         else:
             k = rng.choice(["setcol", "setattr", "cellpos", "cellname", "celltuple", "cellslice", "celllist",
-                            "othercell", "newcol", "delcol", "pop", "append", "update", "bad"])
+                            "othercell", "newcol", "delcol", "pop", "append", "update", "bad", "iadd", "imul"])
             if k == "bad":
                 # an update that FAILS (absent row, position out of range, wrong number of values): whatever it left
                 # behind, later lookups must follow the column as it is now
@@ -264,6 +272,13 @@ def gen_sequence(rng):
                 else:
                     a = rng.randrange(0, n)
                     ops.append(["bad", "cellslice", a, n, [v] * (n - a + 2)])
+            elif k == "iadd":
+                suffix = rng.choice(["_x", "1", ""])
+                names = [q + suffix for q in names]
+                ops.append([k, suffix, rng.choice(["attr", "item"])])
+            elif k == "imul":
+                names = [q * 2 for q in names]
+                ops.append([k, 2])
             elif k in ("setcol", "setattr"):
                 names = [rng.choice(alphabet) for _ in range(n)]
                 ops.append([k, list(names)])
@@ -300,7 +315,7 @@ def gen_sequence(rng):
                 ops.append([k])
     # always end with lookups so that the last mutation is followed by one
     for _ in range(2):
-        ops.append(["look", rng.choice(FORMS), rng.choice(alphabet), rng.choice([None, 0, -1, 1]), 0])
+        ops.append(["look", rng.choice(FORMS), rng.choice(alphabet + sorted(set(names))), rng.choice([None, 0, -1, 1]), 0])
     ops.append(["labels"])
     return names0, ops
 
